@@ -39,6 +39,9 @@ TEMPS = {"rate_depletion": {"R_temperature"}, "rate_recombination": {"R_temperat
 GRAIN_REACTANT = {"rate_recombination", "rate_electron_capture"}     # reactions with the grain itself among the reactants
 
 
+_SURF = ["_rate_surface"]          # actual name of the shared surface-rate helper on the analysed tree (set in check())
+
+
 def name_hole(ir):
     """Descriptive C identifier for a hole of a grain template; None if unrecognised. Also returns the species role used."""
     x = ir[1] if ir[0] == "fmt" and ir[2] is None else ir
@@ -57,7 +60,7 @@ def name_hole(ir):
         role = species_role(m[2][0][1])
         if role:
             return "yield_" + role, role
-    if m[0] == "meth" and m[1] == SELF and m[2] == "_rate_surface":
+    if m[0] == "meth" and m[1] == SELF and m[2] == _SURF[0]:
         return "SURFACE_RATE", None
     if m[0] == "const" and isinstance(m[1], (int, float)):
         return repr(m[1]), None
@@ -157,6 +160,8 @@ DEFAULT_YIELD = {("HH93Grain", "rate_photon_desorption"): 1e-3, ("RR07Grain", "r
 def check(ctx):
     rm = ratemodel(ctx.tree)
     pkg = package(ctx.tree)
+    from ..ratemodel import surface_helper
+    _SURF[0] = surface_helper(pkg)
     _r1(ctx, rm, pkg)
     _r2_r5(ctx, rm, pkg)
     _r3(ctx, pkg)
@@ -386,7 +391,8 @@ def _r1(ctx, rm, pkg):
 
 def _r2_r5(ctx, rm, pkg):
     n = nsig = 0
-    for (cls, mname), reqs in SIG.items():
+    for (cls, mname0), reqs in SIG.items():
+        mname = _SURF[0] if mname0 == "_rate_surface" else mname0
         ci = pkg.cls(cls)
         if mname not in ci.methods:
             ctx.missing("R5", f"{cls}.{mname}", (ci.file, ci.node.lineno), "method of the signature table vanished")
@@ -416,7 +422,7 @@ def _r2_r5(ctx, rm, pkg):
             bad_roles = [r for r in roles if r == "PRODUCT"]
             # 's' = reactants[0] by position, 'ng' = the unique non-grain reactant.  A reaction WITH a grain among its
             # reactants (GRAIN- + X+) has no fixed reactant order (the naunet writer sorts by name): position is not the ion.
-            allowed = {"s1", "s2"} if mname == "_rate_surface" else {"ng"} if mname in GRAIN_REACTANT else {"s", "ng"}
+            allowed = {"s1", "s2"} if mname == _SURF[0] else {"ng"} if mname in GRAIN_REACTANT else {"s", "ng"}
             wrong = [r for r in roles if r not in allowed and r != "PRODUCT"]
             ctx.check(not bad_roles and not wrong and not unknown, "R2", f"{vkey}:species", (v.file, v.line),
                       f"species data come from {sorted(roles) or 'no species'} = the reacting species" if not (bad_roles or wrong or unknown) else
@@ -458,7 +464,7 @@ def _r2_r5(ctx, rm, pkg):
             # which temperature the law is evaluated at is part of the law: gas temperature for what arrives from the gas
             # (accretion, recombination, electron capture), dust temperature for everything that happens on the surface
             temps = {nm for nm in names.values() if nm in ("R_temperature", "R_dust_temperature")}
-            wantT = TEMPS.get(mname)
+            wantT = TEMPS.get("_rate_surface" if mname == _SURF[0] else mname)
             if wantT is not None:
                 nsig += 1
                 ctx.check(temps <= wantT, "R5", f"{vkey}:temperature", (v.file, v.line),
